@@ -1362,11 +1362,16 @@ class Mesh:
             if len(facets) == 0:
                 return np.array([], dtype=np.int32)
             # Recurse over the list, building an array of all matching facets
-            return np.unique(
-                np.concatenate(
-                    [self.normalize_facets(f) for f in facets]
-                )
-            )
+            parts = [self.normalize_facets(f) for f in facets]
+            if any(isinstance(part, OrientedBoundary) for part in parts):
+                # the orientation flags follow their facets
+                ind, ix = np.unique(np.concatenate(parts), return_index=True)
+                ori = np.concatenate([
+                    part.ori if isinstance(part, OrientedBoundary)
+                    else np.zeros(len(part), dtype=int) for part in parts
+                ])
+                return OrientedBoundary(ind, ori[ix])
+            return np.unique(np.concatenate(parts))
         elif callable(facets):
             # The callable should accept an array of facet centers and return
             # an boolean array with True for facets that should be included.
